@@ -255,8 +255,9 @@ class PriorityLock(Lock, BasePriorityObject, LockHelper):
             def key(
                 entry: Tuple[FutureBool, ReferenceTypeTaskAny],
             ) -> bool:
-                fut, _ = entry
-                return fut is from_obj
+                # from_obj is the waiting task, not its future
+                _, weak_task = entry
+                return weak_task() is from_obj
 
             if self._waiters:  # pragma: no branch
                 self._waiters.reschedule(key, priority)
